@@ -65,6 +65,15 @@ Theorem build_memattr_in_bounds : forall A B, diff_build 0 A B <> BOverread.
 Proof. exact build_never_overreads. Qed.
 Print Assumptions build_memattr_in_bounds.
 
+(* every type that has attributes is covered by diff_trees_empty_iff_equal /
+   ..._toocomplex_iff_skeleton_differs through [is_memcmp_type] (caches, memory-side
+   caches since fix c1b2102, Group, PCI device, bridge, OS device) or as a
+   diffable value (NUMA local_memory); regression witness for memory-side caches *)
+Example memcache_attributes_compared :
+  diff_build 0 (mc_T "size=1MB") (mc_T "size=2MB") = BRet 1 [ETooComplex (-8) 0] /\
+  diff_build 0 (mc_T "size=1MB") (mc_T "size=1MB") = BRet 0 [].
+Proof. exact memcache_regression. Qed.
+
 (* identical topologies holding a heterogeneous distances matrix: rc = 1 *)
 Theorem build_zero_iff_equal_refuted_hetero : exists T, diff_build 0 T T = BRet 1 [ETooComplex 0 0].
 Proof. exists het_T. exact hetero_witness. Qed.
